@@ -140,3 +140,14 @@ claim(
     "(EnsembleSampler.run_for has no take_step).",
     "Hypothesis model-based histories + virtual clock + differential (pool vs serial)",
 )
+claim(
+    "C03",
+    "Model-based generation of histories (take_step, advance, tempering-style exchange through replace_last + re-tempered probability, "
+    "second sampler built from the same input arrays, stepping either sampler) over all five sampler classes with temperatures 0.3..50, "
+    "bounds and Gibbs limits: after every operation every stored log-probability is recomputed by the harness from the stored sample "
+    "(own evaluation / T, 1e-12 relative), lengths agree, mode() is a stored row with maximal stored probability, caller-owned arrays "
+    "equal pristine copies, and stepping one sampler leaves its sibling's read-outs bit-identical. A per-case watchdog reports a library "
+    "loop that does not return.",
+    "Exchanges through real worker processes are C08's job; installed points are kept off the discontinuities of the 'cliff' target.",
+    "Hypothesis model-based histories with reference re-evaluation",
+)
